@@ -801,11 +801,12 @@ fn schedules_from_bdl(bdl: &Data, id_maps: &IdMaps) -> Result<SchedulesDb, Error
                     .collect();
                 let day_count = end_day.windows(2).map(|t| t[1] - t[0]);
 
-                assert!(
-                    day_count.len() == sch.weeks.len()
-                        && day_count.len() == sch.months.len()
-                        && day_count.len() == sch.days.len()
-                );
+                if !(day_count.len() == sch.weeks.len()
+                    && day_count.len() == sch.months.len()
+                    && day_count.len() == sch.days.len())
+                {
+                    bail!("Horario anual {} con distinto número de semanas, meses y días", sch.name);
+                }
 
                 let week_ids = sch
                     .weeks
